@@ -190,3 +190,19 @@ func init() {
 		Assumptions: []string{"strconv.IsPrint and the fmt verbs used by the quoting function behave as documented"},
 	})
 }
+
+// decidedClauses: the spec's own list, completed with the documentation of
+// every rule of the property that the list does not mention.
+func decidedClauses(s *PropSpec) []string {
+	out := append([]string{}, s.Decided...)
+	all := strings.Join(s.Decided, " ")
+	for _, rn := range s.Rules {
+		if strings.Contains(all, rn) {
+			continue
+		}
+		if r := rules[rn]; r != nil {
+			out = append(out, rn+": "+r.Doc)
+		}
+	}
+	return out
+}
